@@ -109,7 +109,7 @@ def e2e_case(draw):
         twin = (g.replace("'", "''"), c) if draw(st.booleans()) else (g + "'/'" + c, draw(name_st))
         if twin not in pairs:
             pairs.append(twin)
-    return {'pairs': [list(p) for p in pairs], 'via': draw(st.sampled_from(['writer', 'writer_multi', 'encoder'])),
+    return {'pairs': [list(p) for p in pairs], 'via': draw(st.sampled_from(['writer', 'writer_multi', 'writer_reuse', 'encoder'])),
             'extra_groups': draw(st.lists(name_st, max_size=2, unique=True))}
 
 
@@ -140,6 +140,19 @@ def check_e2e(case, rec):
                 objs += [GroupObject(g, {'tag': g}) for g in case['extra_groups']]
                 if case['via'] == 'writer':
                     w.write_segment(objs)
+                elif case['via'] == 'writer_reuse':
+                    # one ChannelObject / GroupObject instance, renamed and refilled before every segment
+                    ch = ChannelObject(pairs[0][0], pairs[0][1], np.array(values[pairs[0]], dtype='i4'))
+                    for (g, c) in pairs:
+                        ch.group, ch.channel = g, c
+                        ch.data = np.array(values[(g, c)], dtype='i4')
+                        w.write_segment([ch])
+                    if case['extra_groups']:
+                        go = GroupObject(case['extra_groups'][0], {'tag': case['extra_groups'][0]})
+                        for g in case['extra_groups']:
+                            go.group = g
+                            go.properties = {'tag': g}
+                            w.write_segment([go])
                 else:
                     for o in objs:
                         w.write_segment([o])
@@ -174,6 +187,43 @@ def check_e2e(case, rec):
                 g, c, ch.name, ch.group_name, ch.path))
         if [int(x) for x in ch[:]] != values[(g, c)]:
             rec.violation('confused', 'channel (%r, %r) holds %r, written %r' % (g, c, list(ch[:]), values[(g, c)]))
+    # names that were not written - in particular the quoted / escaped forms of names that were - must not resolve
+    probes = set(CONFUSABLE)
+    for g in want_groups:
+        probes.update([make_path(g), g.replace("'", "''"), "'" + g + "'", g + "'", "/" + g, g + "/"])
+    for (g, c) in pairs:
+        probes.update([make_path(g, c), make_path(g) + "/'" + c + "'", g + "'/'" + c])
+    for name in sorted(probes):
+        if name in want_groups:
+            continue
+        try:
+            found = tf[name]
+        except KeyError:
+            found = None
+        except Exception as e:      # noqa
+            rec.violation('lookup:raised', 'file[%r]: %s' % (name, describe_exc(e)), key=exc_key(e))
+            continue
+        if found is not None or (name in tf):
+            rec.violation('lookup_absent', 'no group named %r was written, but file[%r] returned %r (groups %r)' % (
+                name, name, getattr(found, 'path', found), want_groups))
+            break
+    for g in want_groups:
+        if g not in tf:
+            continue
+        wanted = [c for (gg, c) in pairs if gg == g]
+        for name in sorted(probes):
+            if name in wanted:
+                continue
+            try:
+                found = tf[g][name]
+            except KeyError:
+                continue
+            except Exception as e:      # noqa
+                rec.violation('lookup:raised', 'file[%r][%r]: %s' % (g, name, describe_exc(e)), key=exc_key(e))
+                continue
+            rec.violation('lookup_absent', 'group %r has no channel %r, but the lookup returned %r' % (
+                g, name, getattr(found, 'path', found)))
+            break
     for g in want_groups:
         if g in tf:
             names = [c.name for c in tf[g].channels()]
